@@ -53,6 +53,7 @@ def showRat (r : Rat) : String := s!"{r.num}/{r.den}"
 def showVal : Val → String
   | .q r => showRat r
   | .pct p col => s!"p{p}:{showList toString col}"
+  | .nan => "nan"
 
 def showKey (k : Key) : String := s!"{str k.1}:{str k.2}"
 
